@@ -720,6 +720,14 @@ class C17(FMonitor):
                     led.V("C17", "totals-add-up-to-T", "%s: state totals %s add up to %r, T = %r" % (nid, dict(tot), s, T), node=tn, group="all")
                     continue
                 self.compare(led, nid, n, tot, T, tol)
+                if tn == "Combiner":
+                    # every pallet that left the combiner was processed for its drawn delay: at least that much is processing time
+                    draws = [v for (t, v) in led.draws.get("pd:" + nid, [])]
+                    done = len(led.pushes.get(nid, []))
+                    need = sum(draws[:done])
+                    if tot.get("PROCESSING_STATE", 0.0) < need - tol:
+                        led.V("C17", "totals-reflect-activity", "%s finished %d pallet(s) with processing delays %s but charges only %r to PROCESSING_STATE (stats %s)"
+                              % (nid, done, draws[:done], tot.get("PROCESSING_STATE", 0.0), dict(tot)), node=tn, state="PROCESSING_STATE", more=False)
 
     def compare(self, led, nid, n, tot, T, tol):
         tn = tname(n)
